@@ -17,9 +17,9 @@ func init() {
 			"arbitrary byte strings that are not encodings of schema-valid messages are outside: the protobuf byte decoder is trusted",
 		}, stdAssumptions...),
 		Models:      []string{modelSig, modelCodec, modelCtx, modelBig},
-		Explanation: "every public operation is executed symbolically on tokens decoded from adversarial messages that are validly signed by an attacker-chosen root; any panic leaving any goroutine is a violation",
+		Explanation: "every public operation is executed symbolically on tokens decoded from adversarial messages that are validly signed by an attacker-chosen root; any panic leaving any goroutine is a violation; messages are encoded as a hand-written encoder can (required fields may be absent) and decoded with the acceptance rules measured on protobuf-go 1.34; one entry runs with the race log on: a library goroutine that still writes after Authorize/Query returned is a data race with the caller (replayed under -race)",
 		LevelText:   "Bounded symbolic model checking of crash freedom: Unmarshal, String, Code, RevocationIds, GetBlockID, Serialize, AuthorizerFor under two keys, Authorize, Query, PrintWorld, CreateBlock/Append, Seal and LoadPolicies are run on adversarial messages with symbolic field values; the interpreter models Go's runtime panics (nil dereference, index and slice bounds, failed assertions, unhashable keys, divide by zero) on every goroutine.",
-		LevelNote:   "Message-level (ideal codec); families of hostile elements explored one at a time; sizes as listed.",
+		LevelNote:   "Message-level (ideal codec with the real decoder's required-field behaviour); families of hostile elements explored one at a time; sizes as listed. Resource exhaustion (time, memory) is not expressible and outside.",
 		DesignRef:   "DESIGN.md §6 C10",
 	})
 }
